@@ -624,3 +624,49 @@ Theorem memswap_exchanges a b : length a = length b -> memswap a b (length a) = 
 Proof.
   intros L. unfold memswap. apply (memswap_loop_spec (length a) [] a b [] []); auto.
 Qed.
+
+(* ------------------------------------------------------------------ the model's hashes are 64-bit words *)
+Lemma lxor_lt_M64 a b : (a < M64)%N -> (b < M64)%N -> (N.lxor a b < M64)%N.
+Proof.
+  intros Ha Hb. destruct (N.eq_dec (N.lxor a b) 0) as [->|Nz]; [reflexivity|].
+  change M64 with (2 ^ 64)%N in *.
+  apply N.log2_lt_pow2; [lia|].
+  pose proof (N.log2_lxor a b) as L.
+  assert (La : (N.log2 a < 64)%N).
+  { destruct (N.eq_dec a 0) as [->|]; [reflexivity|]. apply N.log2_lt_pow2; lia. }
+  assert (Lb : (N.log2 b < 64)%N).
+  { destruct (N.eq_dec b 0) as [->|]; [reflexivity|]. apply N.log2_lt_pow2; lia. }
+  lia.
+Qed.
+
+Lemma w64_lt x : (w64 x < M64)%N.
+Proof. unfold w64. apply N.mod_lt. discriminate. Qed.
+
+Lemma shiftr_lt_M64 a n : (a < M64)%N -> (N.shiftr a n < M64)%N.
+Proof.
+  intros Ha. rewrite N.shiftr_div_pow2.
+  eapply N.le_lt_trans; [|exact Ha]. apply N.div_le_upper_bound; [apply N.pow_nonzero; discriminate|].
+  assert (1 <= 2 ^ n)%N by (apply N.lt_pred_le; simpl; apply N.neq_0_lt_0, N.pow_nonzero; discriminate).
+  nia.
+Qed.
+
+Theorem hash_data_lt m r seed d : (hash_data m r seed d < M64)%N.
+Proof.
+  unfold hash_data. destruct (blocks m r _ _) as [h t]. unfold finish.
+  apply lxor_lt_M64; [|apply shiftr_lt_M64]; apply w64_lt.
+Qed.
+
+Theorem v_hash_lt m r seed : forall a, v_wf a = true -> (v_hash m r seed true a < M64)%N.
+Proof.
+  induction a as [z|bts|s|s|p|p|bs|k l IH|k mp IH] using value_ind'; intros W; cbn [v_hash];
+    try apply hash_data_lt.
+  - unfold int_hash. change (Z.of_N M64) with 18446744073709551616%Z.
+    pose proof (Z.mod_pos_bound z 18446744073709551616 eq_refl). unfold M64. lia.
+  - apply wf_float in W. destruct W as [W _]. unfold float_hash. destruct (_ && _); [reflexivity|exact W].
+  - apply wf_seq in W. induction l as [|x l IHl]; simpl; [reflexivity|].
+    inversion IH; inversion W; subst. apply lxor_lt_M64; auto.
+  - destruct (wf_map _ _ W) as [_ [_ [Wm _]]]. clear W.
+    induction mp as [|[kk v] mp IHm]; simpl; [reflexivity|].
+    inversion IH as [|? ? [I1 I2] I3]; inversion Wm as [|? ? [W1 W2] W3]; subst. simpl in *.
+    repeat apply lxor_lt_M64; auto.
+Qed.
